@@ -307,6 +307,7 @@ func (dn *dirNode) removeChild(name string) {
 // delete removes all information from the node.
 func (dn *dirNode) delete() {
 	dn.children = nil
+	dn.removed = true
 }
 
 // fillStatFrom returns a MemInfo (implementation of fs.FileInfo) from a dirNode dn named name.
